@@ -24,7 +24,10 @@ MANIFEST = {
             "EXPLOIT.probability<=0 => never an ACL command; every TAP001 action of DOWNLOAD..C2 runs on the selected start node (element "
             "of starting_nodes, or the default) and every c2-server-* action on the configured C2 server, scan targets are configured network addresses / the previous live hosts / the "
             "selected target, TAP003 credentials, account changes and ACL fields come from the configuration (ACL rules in configured "
-            "order). RandomAgent returns the sampled entry of its action map. Tie: enums, dispatch order, comparators, defaults, the "
+            "order); a constructed TAP003's starting knowledge covers every host it is told to log into (settings validator modelled); "
+            "EXPLOIT.probability<=0 => the chain never SUCCEEDS; PeriodicAgent / DataManipulationAgent return exactly node-application-execute of "
+            "the configured application on one node of possible_start_nodes; numpy's binary search equals the model's linear scan on the exact cdf "
+            "and the cdf of non-negative probabilities is sorted. RandomAgent returns the sampled entry of its action map. Tie: enums, dispatch order, comparators, defaults, the "
             "vector shape, get_action signatures, the empty-history guard, the EXPLOIT trial guard, the source expression of every TAP "
             "action parameter (one table that also defines the model's values), the settings dicts they read, where current_host is "
             "assigned, _select_start_node/_select_target_ip and the writers of actions_concluded are regenerated from the sources "
@@ -38,7 +41,7 @@ MANIFEST = {
     "technique": "Lean 4 theorems over executable agent models; models tied by regenerated tables and a differential rig",
     "design_ref": "5/C19",
 }
-MODULES = ["PrimaiteModel.Props.C19", "PrimaiteModel.Props.C19Sched", "PrimaiteModel.Props.C19Run", "PrimaiteModel.Props.C19Params", "PrimaiteModel.Props.C19Sampler", "PrimaiteModel.Props.C19Nodes"]
+MODULES = ["PrimaiteModel.Props.C19", "PrimaiteModel.Props.C19Sched", "PrimaiteModel.Props.C19Run", "PrimaiteModel.Props.C19Params", "PrimaiteModel.Props.C19Sampler", "PrimaiteModel.Props.C19Nodes", "PrimaiteModel.Props.C19More"]
 EXE = "drv_c19"
 KINDS = ["periodic", "prob", "probn", "tap1", "tap3", "rand"]
 
@@ -141,7 +144,9 @@ def run(ctx: Ctx):
         kind = rig.kind_of(case)
         ctx.cov["traces_validated_against_impl"] += 1
         ctx.count("kind:" + case["agent"])
-        if any(m == "bad-op" for m, i in zip(model, impl) if i != "bad-op"):
+        if any(m == "bad-op" for m, i in zip(model, impl) if i != "bad-op") and not (model and model[0] == "raised"):
+            # (after a model-side "raised" at construction the driver has no agent: `bad-op` on the step lines is then the
+            # model's way of saying "no agent", and an implementation that did construct one is an ordinary disagreement)
             raise RuntimeError(f"driver rejected a line of {name}")
         _histogram(ctx, kind, case, impl)
         if kind == "probn":
